@@ -123,10 +123,20 @@ def run(prog, chk):
         for start in (0, 7):
             for ahead in (0, 3):
                 # targets: the logical position itself, the transport position (where the read-ahead stopped), elsewhere
-                for target in sorted(set([start, start + ahead, start + 5, 0])):
-                    offset = {0: target, 1: target - start, 2: target - 100}[whence]
+                for target in sorted(set([start, start + ahead, start + 5, 0])) + ["after-flush"]:
+                    # "after-flush": flushing pending appended data moves the position (to 50) - a relative seek counts
+                    # from where the flush left it, so the position must not be sampled before the flush
+                    moved = target == "after-flush"
+                    base = 50 if moved else start
+                    if moved:
+                        target = base + 5
+                    offset = {0: target, 1: target - base, 2: target - 100}[whence]
                     selfo = Obj(SEEK_SET=0, SEEK_CUR=1, SEEK_END=2, _pos=start, _realpos=start + ahead, _rbuffer=b"s" * ahead)
-                    it = Interp(intrinsics={"self.flush": lambda: None, "self._get_size": lambda: 100, "bytes": lambda: b""}, arith=True)
+
+                    def _flush(selfo=selfo, moved=moved):
+                        if moved:
+                            selfo._pos = selfo._realpos = 50
+                    it = Interp(intrinsics={"self.flush": _flush, "self._get_size": lambda: 100, "bytes": lambda: b"", "self.tell": lambda selfo=selfo: selfo._pos}, arith=True)
                     try:
                         kind, val = it.call_function(sk.node, {sk.params()[0]: selfo, offp: offset, whp: whence})
                     except Refuse as e:
